@@ -10,7 +10,7 @@ cd "$(dirname "$0")/.."
 for p in "$@"; do
   out=$(VERIF_REPO="$scratch" python3 check.py --property "$p" --tier "$tier" 2>/dev/null)
   rc=$?
-  echo "$p exit=$rc $(echo "$out" | grep -E 'VIOLATION|KNOWN' | head -2 | tr '\n' ' ')"
+  echo "$p exit=$rc $(echo "$out" | grep -E 'VIOLATION|KNOWN' | sort -r | cut -c1-160 | head -2 | tr '\n' ' ')"
 done
 # regenerate the tables from the real tree so lean/Generated is back to /repo's state
 python3 check.py --property "$1" --tier quick >/dev/null 2>&1 || true
